@@ -1,5 +1,6 @@
 CONSTANTS
   Triples <- TripThorough
+  Pool <- PoolQuick
   Export = TRUE
 SPECIFICATION Spec
 INVARIANT MirrorIsRef
